@@ -289,7 +289,7 @@ EOS_MODES = [(None, False), (0, False), (0, True)]  # (eos, include_eos); eos = 
 COSTS_QUICK = [(1.0, 1.0, 1.0), (1.0, 2.0, 3.0), (2.0, 1.0, 1.0), (1.0, 1.0, 2.5)]
 COSTS_MORE = [(0.5, 1.0, 1.0), (1.0, 3.0, 1.0), (2.0, 2.0, 1.0), (3.0, 3.0, 4.0), (2.0, 2.0, 2.0), (1.0, 0.25, 0.5)]
 GRID = [0.25, 0.5, 1.0, 1.5, 2.0, 3.0, 4.0]
-NRAND = 12000  # seeded random batches per clause in the thorough tier
+NRAND = 8000  # seeded random batches per clause in the thorough tier
 
 
 def _batches(R, H, A, size):
@@ -305,14 +305,16 @@ def _has_counted(hyp_row, eos, inc):
     return len(counted(hyp_row, eos, inc)) > 0
 
 
-def _exhaustive(L, A, costs_list, size, loss=False, r0=True):
-    k = 0
+def _exhaustive(L, A, costs_list, size, loss=False, r0=True, alt_bf=False):
+    """alt_bf: alternate batch_first from batch to batch instead of running every batch in both layouts"""
+    k = b = 0
     for R in range(0, L + 1):
         for H in range(0, L + 1):
             for refs, hyps in _batches(R, H, A, size):
+                b += 1
                 for eos, inc in EOS_MODES:
                     for costs in costs_list:
-                        for bf in (False, True):
+                        for bf in ((b % 2 == 0,) if alt_bf else (False, True)):
                             base = {"ref": refs, "hyp": hyps, "eos": eos, "include_eos": inc, "batch_first": bf, "costs": list(costs)}
                             if loss:
                                 if R == 0:
@@ -362,7 +364,7 @@ def cases_oc(ctx):
         yield from _exhaustive(4, 3, COSTS_QUICK, 81)
     else:
         yield from _exhaustive(4, 3, COSTS_QUICK + COSTS_MORE, 81)
-        yield from _exhaustive(5, 3, COSTS_QUICK[:2], 243)
+        yield from _exhaustive(5, 3, COSTS_QUICK[1:2], 243, alt_bf=True)
         yield from _exhaustive(3, 4, COSTS_QUICK[1:3], 64)
         rng = random.Random(ctx.seed * 7919 + 1)
         for _ in range(NRAND):
@@ -385,7 +387,7 @@ def cases_mask(ctx):
         yield from _exhaustive(4, 3, COSTS_QUICK, 81, r0=False)
     else:
         yield from _exhaustive(4, 3, COSTS_QUICK + COSTS_MORE, 81, r0=False)
-        yield from _exhaustive(5, 3, COSTS_QUICK[:2], 243, r0=False)
+        yield from _exhaustive(5, 3, COSTS_QUICK[1:2], 243, r0=False, alt_bf=True)
         rng = random.Random(ctx.seed * 7919 + 2)
         for _ in range(NRAND):
             c = _random_case(rng)
@@ -397,7 +399,7 @@ def cases_loss(ctx):
     if ctx.quick:
         yield from _exhaustive(3, 3, COSTS_QUICK[:2], 27, loss=True)
     else:
-        yield from _exhaustive(4, 3, COSTS_QUICK, 81, loss=True)
+        yield from _exhaustive(4, 3, COSTS_QUICK[:2], 81, loss=True)
         rng = random.Random(ctx.seed * 7919 + 3)
         for _ in range(NRAND):
             yield _random_case(rng, loss=True)
@@ -448,7 +450,7 @@ def run_bounded(ctx):
     ex = ("EXHAUSTIVE: every (ref, hyp) in {0,1,2}^R x {0,1,2}^H, R,H<=4 (R=4 forces a repeated reference token), in batches of <=81 pairs; "
           "eos in {none, 0 not counted, 0 counted} (0 is in the alphabet: ragged lengths, garbage after eos); "
           "batch_first x exclude_last (not with H=0); costs (ins,del,sub) in %s" % (COSTS_QUICK if q else COSTS_QUICK + COSTS_MORE))
-    more = "" if q else ("; + exhaustive R,H<=5 alphabet 3 (2 cost triples) %s+ " + "%d seeded random batches " % NRAND +
+    more = "" if q else ("; + exhaustive R,H<=5 alphabet 3 (costs (1,2,3), layout alternating per batch) %s+ " + "%d seeded random batches " % NRAND +
                          "(alphabet<=5, R,H,N<=6, eos inside/outside the alphabet, costs from {.25,.5,1,1.5,2,3,4}^3, functional or module entry point)")
     if _wanted(ctx, "C03.mask.row_minima"):
         ctx.bounded("C03.mask.row_minima", check_mask, cases_mask(ctx), bound=ex + (more % "" if more else "") + "; R>=1 as tensor size (empty references through eos)",
@@ -462,7 +464,7 @@ def run_bounded(ctx):
     if _wanted(ctx, "C03.loss.formula"):
         ctx.bounded("C03.loss.formula", check_loss, cases_loss(ctx),
                     bound=("EXHAUSTIVE: every (ref, hyp) in {0,1,2}^R x {0,1,2}^H, 1<=R,H<=%d with a counted hypothesis token, batches of <=%d; 3 eos modes x batch_first x reduction {none,sum,mean}; "
-                           "costs %s; V in {3,4}; ignore_index in {-2,-100}; one seeded float64 logit tensor (3*randn) per case" % ((3, 27, COSTS_QUICK[:2]) if q else (4, 81, COSTS_QUICK)))
+                           "costs %s; V in {3,4}; ignore_index in {-2,-100}; one seeded float64 logit tensor (3*randn) per case" % ((3, 27, COSTS_QUICK[:2]) if q else (4, 81, COSTS_QUICK[:2])))
                     + ("" if q else "; + %d seeded random batches (as above, float32 and float64 logits, functional or module entry point)" % NRAND),
                     text="hard OCD loss = mean over the brute-force target set of -log_softmax(logits)[t] per prefix (0 where empty); sum; mean = per-sequence average over prefixes with targets, then batch mean",
                     nontrivial=_repeats, budget_s=None if q else 400, chunk=8, functions=["_string.hard_optimal_completion_distillation_loss", "_string.optimal_completion"])
